@@ -818,7 +818,12 @@ func checkPush(c PushCase) error {
 		return !(c.Stop > 0 && seen == c.Stop)
 	}
 	func() {
-		defer func() { recover() }()
+		defer func() {
+			// the only panic expected here is the loop body's own "boom"
+			if r := recover(); r != nil && fmt.Sprint(r) != "boom" {
+				viol = fmt.Sprintf("the push iterator panicked: %v", r)
+			}
+		}()
 		switch {
 		case c.API == "elements-of-dict":
 			// *Dict has no Elements method: the generic function's own iterator-based fallback
